@@ -56,7 +56,7 @@ class Record:
     def render(self, seed):
         t, u = CT[self.ty], UT[self.ty]
         k = self.kind
-        if k in ("swizzle", "shuffle", "swizzle_vs_dynamic"):
+        if k in ("swizzle", "shuffle", "swizzle_vs_dynamic", "shuffle_vs_dynamic"):
             idx = ", ".join("%d" % v for v in self.vals)
             return "check_%s<%s, %s, %s>(%d, %dull);" % (k, t, u, idx, self.rid, seed)
         if k == "const_values":
@@ -358,6 +358,15 @@ def c19_records(target, tier, rnd):
         if cap("swizzle_const", target, ty) and cap("swizzle_const_mix", target, ty) and cap("swizzle_dyn", target, ty):
             for name, m in swizzle_masks(n, rnd, 2 if tier == "quick" else 20, per128)[:12 if tier == "quick" else 400]:
                 recs.append(Record("swizzle_vs_dynamic", ty, m, name, nontrivial=name != "identity"))
+        if cap("shuffle", target, ty) and cap("swizzle_dyn", target, ty) and n >= 2:
+            ms = shuffle_masks(n, rnd, 2 if tier == "quick" else 30, per128, full=(tier != "quick"))
+            if tier == "quick":
+                ms = [x for x in ms if x[0].startswith("in_lane_xy")][:2 * n + 4] + rnd.sample(ms, min(len(ms), 8))
+            for name, m in ms:
+                both = any(x < n for x in m) and any(x >= n for x in m)
+                if not both and not (cap("swizzle_const", target, ty) and cap("swizzle_const_mix", target, ty)):
+                    continue
+                recs.append(Record("shuffle_vs_dynamic", ty, m, name, nontrivial=both))
         if ty.startswith("f") and cap("select_const", target, ty):
             for _ in range(nrand + 2):
                 recs.append(Record("select_const", ty, [int(rnd.random() < 0.5) for _ in range(n)], "select"))
